@@ -195,5 +195,7 @@ func (c *twistPoint) Neg(a *twistPoint) {
 	c.x.Set(&a.x)
 	c.y.Neg(&a.y)
 	c.z.Set(&a.z)
-	c.t.SetZero()
+	// -a has the same z, hence the same t = z². (With t zeroed, the negation of an affine point
+	// (z = 1: MakeAffine returns at once) reached the Miller loop with t = 0 and e(P, -Q) was wrong.)
+	c.t.Set(&a.t)
 }
